@@ -1627,6 +1627,21 @@ class Reduction:
       xw = self.x.at(self.full_index(kidx, w))
       c.fact(sym.implies(self._nonempty(), sym.sand(self._in_range(w), eq(res, xw))),
              f"{kind}: attained at a witness index")
+      # the new witness index is a point like any other: earlier max/min reductions over the same number of axes get their
+      # bound fact at it (otherwise a later reduction's witness may sit where an earlier one was never constrained)
+      if not hasattr(self, "inst"):
+        self.inst = {}
+      self.inst[_key(kidx)] = (kidx, res)
+      for other in c.reductions:
+        if other is self or other.kind not in ("max", "min") or len(other.axes) != len(self.axes):
+          continue
+        for okidx, ores in getattr(other, "inst", {}).values():
+          try:
+            xo = other.x.at(other.full_index(okidx, w))
+          except Exception:  # pylint: disable=broad-except
+            continue
+          c.fact(sym.implies(other._in_range(w), (ores >= xo) if other.kind == "max" else (ores <= xo)),
+                 f"{other.kind}: bound at every index")
       for j in cands:
         xj = self.x.at(self.full_index(kidx, j))
         c.fact(sym.implies(self._in_range(j), (res >= xj) if kind == "max" else (res <= xj)),
